@@ -27,6 +27,9 @@ def strip_deref_calls(e):
     """a.header.length reached through Deref::deref(&a): normalise `deref(&x).*` to x."""
     if not isinstance(e, tuple):
         return e
+    if e[0] == "call" and e[2] in ("read", "cast", "as_ptr") and len(e[3]) == 1 and e[1] in ("core::ptr::read", "<*const T>::read", "<*mut T>::read", "<core::ptr::non_null::NonNull<T>>::cast", "<core::ptr::non_null::NonNull<T>>::as_ptr", "<*const T>::cast", "<*mut T>::cast"):
+        # a place read spelled `addr_of!(place).read()`, a pointer re-typed with `.cast()`: the same place / the same address
+        return strip_deref_calls(e[3][0])
     if e[0] == "call" and e[2] in ("deref", "inner", "slice", "length", "header") and e[3]:
         inner = strip_deref_calls(e[3][0])
         if e[2] in ("slice", "length", "header"):
@@ -160,7 +163,7 @@ def _thin_ctor(F, PROT, thin, rep, tag):
 
 def _thick(F, PROT, rep, tag):
         # ------------------------------------------------------------ R-THICK
-        thick = [b for b in F.body_list if b["kind"] in ("Fn", "AssocFn") and any(F.handle_name(F.strip_refs(t)) == "ThinArc" for t in b.get("inputs", [])) and "output" in b and F.ty(b["output"])["k"] == "ptr" and F.mentions_adt(b["output"], PROT)]
+        thick = [b for b in F.body_list if b["kind"] in ("Fn", "AssocFn") and any(F.handle_name(F.strip_refs(t)) == "ThinArc" for t in b.get("inputs", [])) and "output" in b and (F.ty(b["output"])["k"] == "ptr" or F.ts(b["output"]).startswith("core::ptr::non_null::NonNull<")) and F.mentions_adt(b["output"], PROT)]
         if len(thick) != 1:
             rep.bad("R-THICK", "re-fattening helper", "expected exactly one helper turning `&ThinArc` into a fat block pointer, found %d" % len(thick), None, tag)
         else:
